@@ -482,6 +482,10 @@ func (g *Gen) stakingTx() Op {
 	case 8:
 		return Op{K: "remv", Creator: n, Size: uint64(1_000_000 * (1 + r.Intn(12)))}
 	case 9:
+		if r.Chance(35) {
+			// an infraction: from here on the validator's tokens and delegator shares differ
+			return Op{K: "slash", Val: v, Amount: int64([]int{1, 5, 50}[r.Intn(3)])}
+		}
 		return Op{K: "restart"}
 	case 10:
 		// a new order whose replica count sits at the boundary of the normal-node population
